@@ -474,6 +474,10 @@ func runWorldMode(cfg *runCfg, name string, kf1 bool) error {
 			w = kf1ForkWorld(r, rep, cfg.seed*100000)
 			w.kf1ForkScript()
 			rep.count("world:directed-KF-1-fork-script")
+		} else if !kf1 && i == 0 {
+			w = equivocationWorld(r, rep, cfg.seed*100000)
+			w.equivocationScript()
+			rep.count("world:directed-equivocation-script")
 		} else {
 			w.run()
 		}
